@@ -106,7 +106,11 @@ func (e *menv) render(t *mt, r *mRenamer) string {
 	for _, x := range t.a {
 		xs = append(xs, e.render(x, r))
 	}
-	return t.f + "(" + strings.Join(xs, ",") + ")"
+	f := t.f
+	if f == "," {
+		f = "','"
+	}
+	return f + "(" + strings.Join(xs, ",") + ")"
 }
 
 // copyTerm renames the unbound variables of t (a copy of the ball is thrown).
@@ -442,8 +446,15 @@ func (m *c04Model) solve(g *c04Goal, e *menv, local map[string]*mt, k func(*menv
 		m.inScope = true
 		fromCont := false
 		catcher := m.term(g.T, local)
+		inner := g.Args[0]
+		switch g.N {
+		case 1: // catch((A, !, B), ...): the cut commits to the first solution of A, locally
+			inner = &c04Goal{Op: "and", Args: []*c04Goal{{Op: "once", Args: []*c04Goal{g.Args[0]}}, g.Args[2]}}
+		case 2:
+			inner = &c04Goal{Op: "badgoal", Kind: g.Kind, T: c04BadVar(g), I: g.I}
+		}
 		m.underCatch++
-		s := m.solve(g.Args[0], e, local, func(e2 *menv) sig {
+		s := m.solve(inner, e, local, func(e2 *menv) sig {
 			m.underCatch--
 			s2 := k(e2)
 			m.underCatch++
@@ -470,6 +481,24 @@ func (m *c04Model) solve(g *c04Goal, e *menv, local map[string]*mt, k func(*menv
 		}
 		m.caught++
 		return m.solve(g.Args[1], e2, local, k)
+	case "badgoal":
+		// what call/1 does with a goal that is not callable (raised before anything of the goal runs)
+		switch g.Kind {
+		case "int":
+			return m.raise(isoError(mCmp("type_error", mAtom("callable"), mAtom("1"))))
+		case "conj-int":
+			return m.raise(isoError(mCmp("type_error", mAtom("callable"), mCmp(",", mCmp("pt", mAtom(fmt.Sprint(g.I))), mAtom("1")))))
+		}
+		t := e.resolve(m.term(g.T, local))
+		switch {
+		case t.f == "":
+			return m.raise(isoError(mAtom("instantiation_error")))
+		case t.f == "." || t.f == "[]":
+			// a list as a goal: not modelled, the run is dropped
+			m.events = append(m.events, make([]string, m.maxEv+1)...)
+			return sigCap
+		}
+		return m.raise(isoError(mCmp("existence_error", mAtom("procedure"), mCmp("/", mAtom(t.f), mAtom(fmt.Sprint(len(t.a)))))))
 	case "user":
 		// u_k(Arg): clauses tried in order; each gets fresh local variables
 		arg := m.term(g.T, local)
